@@ -668,8 +668,9 @@ def gen_hash(rng):
     return "".join(rng.choice(HEXD) for _ in range(32))
 
 
-def gen_hint(rng):
-    r = rng.random()
+def gen_hint(rng, no_sig=False):
+    """a locator hint; no_sig: never a +A permission signature (remote-signed / unsigned collections)"""
+    r = rng.random() if not no_sig else rng.uniform(0.5, 1.0)
     if r < 0.5:
         return "+A" + "".join(rng.choice(HEXD) for _ in range(40)) + "@" + "".join(rng.choice(HEXD) for _ in range(8))
     if r < 0.7:
@@ -693,6 +694,7 @@ def gen_valid(rng, avoid_conflict=True, big=False):
         else:
             pool.append((gen_hash(rng), rng.choice([1, 1, 2, 3, 5, 8, 13, 20, rng.randint(1, 20)]) if not big
                          else rng.choice([1, 7, 20, 33, 64, 70, rng.randint(1, 70)])))
+    no_sig = rng.random() < 0.25          # a manifest none of whose locators carries a +A signature
     nstreams = rng.randint(1, 4)
     dirs = [b"."]
     for _ in range(rng.randint(0, 3)):
@@ -721,7 +723,7 @@ def gen_valid(rng, avoid_conflict=True, big=False):
         for h, s in blocks:
             loc = f"{h}+{s}"
             for _ in range(rng.choice([0, 0, 0, 1, 1, 2])):
-                loc += gen_hint(rng)
+                loc += gen_hint(rng, no_sig)
             toks.append(loc.encode())
         nf = rng.randint(4, 12) if big else rng.randint(1, 6)
         ftoks = []
